@@ -18,7 +18,8 @@ func init() {
 			"R3 precondition of ast.IsGenerated — the parser.ParseFile mode used for targets has the ParseComments bit, without which the marker is invisible. " +
 			"NOT decided: ast.IsGenerated's own regular expression (standard library, matches the statement's wording)." +
 			" R5 a skipped file leaves nothing behind (cross-file state)." +
-			" R6 processing a file leaves nothing in the compiled patch (the read-only rule, atomic writes included): which files are processed before a file differs with the flag.",
+			" R6 processing a file leaves nothing in the compiled patch (the read-only rule, atomic writes included): which files are processed before a file differs with the flag." +
+			" R6 every load of the SkipGenerated option is tested right in front of the marker predicate, handed to an effect-free gate helper, or made in a pure accessor whose calls are.",
 		Trusted:     append([]string{"go/ast.IsGenerated implements the '// Code generated ... DO NOT EDIT.' convention for comments before the package clause"}, commonTrusted...),
 		Assumptions: commonAssumptions,
 	})
@@ -42,6 +43,7 @@ func runC18(r *an.Run) {
 	// generated file is processed without it and skipped with it), so a file without a marker is processed
 	// "exactly as without the flag" only if processing a file leaves nothing behind in the compiled patch
 	compiledProgramReadOnly(r, "R6-processing-a-file-leaves-nothing-in-the-compiled-patch")
+	flagOnlyAtTheGate(r, "R6-the-flag-is-read-only-at-the-gate")
 }
 
 func c18Gating(r *an.Run, m *runModel) {
